@@ -88,6 +88,34 @@ def cases(rng, tier):
         s += req(0, k)
     s += [(1, 0, 70), (2, 0, 70), (1, 1, 0), (2, 1, 0), (1, 2, 0), (2, 2, 0), (0, 0, 1), (0, 1, 0), (0, 2, 0)]
     cs.append(C.Case("cache_trace", flat(s), tag="race_at_capacity"))
+    # overlapping misses on DIFFERENT fresh keys around the capacity boundary: prefill to 61..64, then n threads
+    # all look up before any of them inserts (a decision taken in the first critical section is stale by then)
+    for fill in (61, 62, 63, 64):
+        for nth in (2, 3, 4):
+            for variant in range(2 if tier == "quick" else 6):
+                s = []
+                for k in range(1, fill + 1):
+                    s += req(0, k)
+                fresh = [100 + i for i in range(nth)]
+                if variant % 2 == 1:
+                    fresh[-1] = fresh[0]  # one duplicate among the racers
+                s += [(1 + i, 0, fresh[i]) for i in range(nth)]
+                s += [(1 + i, 1, 0) for i in range(nth)]
+                for i in rng.shuffle(list(range(nth))):
+                    s.append((1 + i, 2, 0))
+                s += req(0, 1) + req(0, 2)
+                cs.append(C.Case("cache_trace", flat(s), tag="overlap_at_capacity"))
+    # random interleavings of fresh-key requests on an almost full cache
+    for _ in range(4 if tier == "quick" else 30):
+        fill = rng.range(58, 64)
+        s = []
+        for k in range(1, fill + 1):
+            s += req(0, k)
+        seqs = [sum((req(t, 100 + rng.below(12)) for _ in range(rng.range(1, 3))), []) for t in range(1, 5)]
+        while any(seqs):
+            i = rng.choice([j for j, q in enumerate(seqs) if q])
+            s.append(seqs[i].pop(0))
+        cs.append(C.Case("cache_trace", flat(s), tag="random_near_capacity"))
     return cs
 
 
@@ -147,7 +175,7 @@ def evaluate(cases, rep, tier):
         why = property_check(c, i)
         if why:
             counter.append({"input": c.impl_line(), "expected": "transparent, bounded cache", "observed": why, "oracle": "C17 predicates on the real trace"})
-        if c.tag in ("long", "race_at_capacity", "enum2x2", "enum3x1"):
+        if c.tag in ("long", "race_at_capacity", "enum2x2", "enum3x1", "overlap_at_capacity", "random_near_capacity"):
             nt += 1
     kinds = {}
     for c in cases:
